@@ -10,8 +10,9 @@ import YaegiVerif.Expected.C18
    OBJ    = (o name exported KIND)
    KIND   = (const untyped CV) | (func generic) | (var) | (type generic)
           | (iface generic embeds methodSet METHOD…) | (other)
-   CV     = (typed) | (int n) | (flt num den prec) | (str hex) | (bool b) | (cplx)
-   METHOD = (m name exported variadic (PARAM…) (PARAM…));  PARAM = (name typ () | (elem) (deps…))
+   CV     = (typed) | (int n) | (flt num den prec) | (str hex) | (bool b) | (cplx PART PART)
+   PART   = (int n) | (flt num den prec)
+   METHOD = (m name exported variadic (PARAM…) (PARAM…));  PARAM = (name typ () | (elem) (deps…) isString)
    FILE   = (file dest symkey tags (imports…) (vals E…) (typs E…) (wraps E…) (wtypes W…)) | (err msg)
    E      = (e key form pkg name tok val);  W = (w name iface (m name ret guard (P…) (P…) (A…))…)
    Strings are byte strings: every character of an atom stands for one byte. -/
@@ -20,13 +21,14 @@ open YaegiVerif YaegiVerif.Extract
 
 def parseParam (s : Sexp) : Option Param :=
   match s with
-  | .list [.atom n, .atom t, .list el, deps] => do
+  | .list [.atom n, .atom t, .list el, deps, isStr] => do
     let ds ← deps.atoms?
+    let isStr ← isStr.bool?
     let e ← match el with
       | [] => some none
       | [.atom x] => some (some x.toList)
       | _ => none
-    some { name := n, typ := t.toList, elem := e, deps := ds }
+    some { name := n, typ := t.toList, elem := e, deps := ds, isString := isStr }
   | _ => none
 
 def parseMethod (s : Sexp) : Option Method :=
@@ -37,6 +39,16 @@ def parseMethod (s : Sexp) : Option Method :=
     let ps ← ps.mapM parseParam
     let rs ← rs.mapM parseParam
     some { name := n, exported := ex, variadic := va, params := ps, results := rs }
+  | _ => none
+
+def parsePart (s : Sexp) : Option CNum :=
+  match s with
+  | .list [.atom "int", n] => n.int?.map CNum.int
+  | .list [.atom "flt", n, d, p] => do
+    let n ← n.int?
+    let d ← d.nat?
+    let p ← p.nat?
+    some (.flt n d p)
   | _ => none
 
 def parseCV (s : Sexp) : Option (Option CVal) :=
@@ -50,7 +62,10 @@ def parseCV (s : Sexp) : Option (Option CVal) :=
     some (some (.flt n d p))
   | .list [.atom "str", .atom h] => some (some (.str h))
   | .list [.atom "bool", b] => b.bool?.map fun v => some (.bool v)
-  | .list [.atom "cplx"] => some (some .cplx)
+  | .list [.atom "cplx", re, im] => do
+    let re ← parsePart re
+    let im ← parsePart im
+    some (some (.cplx re im))
   | _ => none
 
 def parseKind (s : Sexp) : Option Kind :=
@@ -91,6 +106,10 @@ def b (x : Bool) : String := if x then "1" else "0"
 def showTok : Tok → String
   | .INT => "INT" | .FLOAT => "FLOAT" | .STRING => "STRING" | .COMPLEX => "COMPLEX"
 
+def showNum : Num → String
+  | .int n => "INT:" ++ toString n
+  | .rat n d => "FLOAT:" ++ toString n ++ "/" ++ toString d
+
 def showEntry (e : Entry) : String :=
   let (form, pkg, name, tok, val) := match e.form with
     | .value id => ("value", id.pkg, id.name, "", "")
@@ -102,7 +121,7 @@ def showEntry (e : Entry) : String :=
       | .int n => toString n
       | .rat n d => toString n ++ "/" ++ toString d
       | .str s => s
-      | .cplx => "exact")
+      | .cplx re im => showNum re ++ ";" ++ showNum im)
   "(e " ++ " ".intercalate [q e.key, q form, q pkg, q name, q tok, q val] ++ ")"
 
 def showParams (ps : List WParam) : String :=
